@@ -56,7 +56,7 @@ fn gen(seed: u64, idx: u64, _tier: Tier) -> Plan {
     let mut s = ServerSpec::basic(Mode::F, &seed_hex(&mut rng));
     s.workers = 1 + rng.below(4) as i64;
     s.batch_size = *rng.pick(&[1i64, 8, 64]);
-    s.source = if rng.chance(1, 2) { ConfigSource::File } else { ConfigSource::Env };
+    process_settings(&mut rng, &mut s);
     world_knobs(&mut rng, &mut plan, false);
     plan.world.flow_hash = None; // arbitrary distribution: reach every worker's certificate
     if idx % 3 == 1 {
